@@ -55,6 +55,21 @@ def runRace (line : String) : String :=
     | _, _, _, _ => "bad-op"
   | _ => "bad-op"
 
-def streams : List (String × (String → String)) := [("c20", runC20), ("c20_race", runRace)]
+/-- stream `c20_global` : (global shared-first|internal-first N) — N threads race to initialise the process-global
+    shared slot and N the internal slot, in the given order. Each slot is its own instance of the slot machine,
+    so `at_most_one_winner` / `losers_never_used` give one winner per slot whatever happened to the other. -/
+def runGlobal (line : String) : String :=
+  match Sexp.parse line with
+  | some (.list [.atom "global", .atom order, n]) =>
+    match n.nat? with
+    | some n =>
+      if (order != "shared-first" && order != "internal-first") || n == 0 || n > 16 then "bad-op"
+      else
+        let one (k : Nat) : Nat := (EmitModel.Slot.run EmitModel.Slot.init0 ((List.range k).map fun i => Label.init i)).1.inits.filter (·.2) |>.length
+        s!"shared={one n} internal={one n} stray=0\t{order}"
+    | none => "bad-op"
+  | _ => "bad-op"
+
+def streams : List (String × (String → String)) := [("c20", runC20), ("c20_race", runRace), ("c20_global", runGlobal)]
 
 end EmitModel.Driver.C20
